@@ -61,6 +61,7 @@ Clauses ==
    C19_Immutable |-> C19_Immutable(pre, st),
    C19_ImmutableRest |-> C19_ImmutableRest,
    C19_Unique |-> C19_Unique(gh),
+   C19_Permanent |-> C19_Permanent(st, gh),
    Rejected_NoEffect |-> Rejected_NoEffect(pre, ev, st) /\ ((~ev.ok) => obs.restH = pobs.restH),
    X19_NoOrphans |-> obs.orphans = 0]
 
